@@ -17,6 +17,43 @@ _native.install_funnel()
 NATIVE = _native.NATIVE
 NATIVE_BUDGET = {"quick": 40, "thorough": 600}
 
+EXPLANATION = (
+    "Every function of the expression layer under contract declares the exception classes that may leave it - only "
+    "subclasses of InvalidDefinitionError, mostly with an if-and-only-if condition - and the generator emits an obligation "
+    "`noraise#<Class>` (goal False) for any other class raised on a feasible path of the real body, where library calls "
+    "raise according to their assumed CPython contracts (Fraction.__pow__ -> OverflowError / complex, chr() -> ValueError / "
+    "OverflowError, Fraction(float) -> OverflowError / ValueError, int()/Fraction(str) -> ValueError, dict lookup -> "
+    "KeyError, next() -> StopIteration, failed in-code assert -> obligation).  The funnel `_parser.parse` is verified "
+    "against the assumed contract of parsimonious: InternalError leaves it only under the ghost condition 'a visitor "
+    "raised a non-Error exception (or InternalError itself)', every pydsdl Error leaves it with a line number.")
+NOT_COVERED = [
+    "arbitrary garbage text in general: that parsimonious' Grammar.parse raises only ParseError and that NodeVisitor.visit "
+    "wraps/unwraps exceptions as documented is the assumed third-party contract",
+    "visitors not under contract (statements, types, comments, identifiers, expression lists, expression_atom, "
+    "_visit_binary_operator_chain) and the whole DataTypeBuilder / Constant / serializable-type constructors: the ghost flag "
+    "visitor_crashed is excluded only for the visitors listed under functions_under_contract",
+    "DSDLDefinition.read and _namespace_reader._read_definitions (path attachment): only "
+    "Error.set_error_location_if_unknown, which both call, is proved; the whole_text extra check observes a path on every "
+    "rejected definition (bounded)",
+    "Set._attribute (min / max / count) and _operator.attribute, CompositeType._attribute, SerializableType._attribute "
+    "(functools.reduce over a set is not modelled); exercised natively by whole_text only",
+    "sets of sets and sets of types: every contract involving a Set operand assumes (precondition `domain`) that its "
+    "element class is Boolean, Rational or String",
+    "string literals whose body contains the delimiting quote character after a backslash (precondition "
+    "`no-quote-inside` of _parse_string_literal: the in-code assertion about unescaped quotes depends on the grammar regex)",
+    "text rendering of huge numbers (str(), %-formatting are assumed total): see the known finding int-str-digit-limit",
+    "RecursionError, MemoryError, running time (10 ** 1e400 is an exact integer power), file names (C15), non-UTF-8 files "
+    "(a definition file with invalid UTF-8 yields InternalError(UnicodeDecodeError); not a Unicode text, outside the statement)",
+]
+ASSUMPTIONS = [
+    "exception classes of library calls are those of the assumed CPython 3.11/3.12 contracts listed under "
+    "assumed_library_contracts (pyvc/ext_expr.py, pyvc/libmodel.py)",
+    "operands of the expression layer range over the repository's subclasses of Any (closed world); Set element classes "
+    "are Boolean, Rational or String (contract preconditions)",
+    "literal visitors: the matched text is acceptable to int()/Fraction() (precondition from the grammar; checked "
+    "against the real grammar by C04's bounded literal enumeration, not proved)",
+]
+
 # ------------------------------------------------------------------------------------------------ end-to-end (bounded)
 TARGETED = [
     "@assert (-1) ** 0.5 == 1", "@assert 1e400 ** 0.5 == 1", "@assert 1e-400 ** -0.5 == 1", "@assert 0 ** -1 == 1",
@@ -25,7 +62,9 @@ TARGETED = [
     "@assert 1 / 0 == 1", "@assert 1 % 0 == 1", "@assert {1, 2} / {0} == 1", "@assert 1 / {1, 0} == {1}",
     "@assert ({1, 2} & {3}) == {1}", "@assert true + 1 == 2", "@assert 'a' * 2 == 'aa'", "uint8[1.5] x", "uint8[{1}] x",
     "uint8[true] x", "uint8[<=0] x", "uint8[<1] x", "uint8[-1] x", "@assert 1", "@extent 'a'", "@extent 1.5", "@assert",
-    "@assert {1}.min.max", "@assert {'a'}.min == 'a'", "@assert {true}.max", "@assert {{1}} + 1 == {{2}}",
+    "@assert {1}.min.max", "@assert {1, 2}.min == 1", "@assert {'a', 'b'}.max == 'b'", "@assert {1}.count == 1",
+    "@assert {1}.foo == 1", "@assert uint8.foo == 1", "@assert {1, 2}.min.count == 1", "@assert {true, false}.min",
+    "@assert {'a'}.min == 'a'", "@assert {true}.max", "@assert {{1}} + 1 == {{2}}",
     "@assert {uint8} == {uint8}", "@assert uint8 + 1 == 1", "@assert 1.5 | 1 == 1", "@assert 2 ** 0.5 == 1",
     "@assert (1 / 3) ** (1 / 3) == 1", "@assert -8 ** (1 / 3) == 1", "@assert (-8) ** (1 / 3) == 1",
     "@assert 0x_ == 1", "@assert 1__0 == 1", "@assert 1.e5 == 1", "@assert 'a", "@assert 'a\\'", "@assert \"\\x41\" == 'A'",
